@@ -221,6 +221,36 @@ func ruleNum(c *Ctx) {
 		}
 		l.add("R-NUM", "v5", key, b.rel(rm.Pos()), v, why, true)
 	}
+	// the same census for the legacy body: its patch side (test, Equal) compares number texts,
+	// so a conversion through float64 makes distinct literals equal
+	if lb := c.Legacy; lb != nil {
+		key := "legacy library: JSON number texts are never parsed or converted"
+		bad := ""
+		for _, fn := range lb.srcFuncs(lb.Lib) {
+			allInstrs(fn, func(i ssa.Instruction) {
+				call, ok := i.(*ssa.Call)
+				if !ok {
+					return
+				}
+				f := call.Call.StaticCallee()
+				if f == nil {
+					return
+				}
+				n := stdName(f)
+				if n == "strconv.ParseFloat" || n == "strconv.ParseInt" || n == "strconv.ParseUint" || strings.HasPrefix(n, "math/big.") {
+					bad = fname(fn) + " calls " + n + " at " + lb.posOf(i)
+				}
+				if (f.Name() == "Float64" || f.Name() == "Int64") && recvTypeName(f) == "Number" {
+					bad = fname(fn) + " calls Number." + f.Name() + " at " + lb.posOf(i)
+				}
+			})
+		}
+		if bad != "" {
+			l.add("R-NUM", "legacy", key, "", Violated, bad+": two different literals can compare equal (9007199254740993 and 9007199254740992 are one float64), so a test that must fail passes", true)
+		} else {
+			l.add("R-NUM", "legacy", key, "", Discharged, "no call of strconv.ParseFloat/ParseInt/ParseUint, Number.Float64/Int64 or math/big in the legacy library", true)
+		}
+	}
 	// (v) no numeric conversion of JSON numbers in the v5 library
 	{
 		key := "v5 library: JSON numbers are never parsed or converted"
